@@ -213,4 +213,25 @@ def controls(facts):
         ea, ra, la = inl_view(a)
         eb, rb, lb = inl_view(b_)
         res["inline_pair_%s" % a] = ea == eb and ra == rb and bool(ea or ra) and bool(la or lb)
+    # a DERIVED constructor (many fields, > 12 blocks) reads as the struct literal it builds (mir.accessor_summary)
+    def ret_of(name):
+        ds = [d for d in facts.bodies if d.endswith("inl::" + name)]
+        return mir.render(mir.Body(facts, facts.bodies[ds[0]]).return_term())
+    res["derived_ctor_is_literal"] = ret_of("wide_literal") == ret_of("wide_ctor") and ret_of("wide_ctor").startswith("Wide::Wide{")
+    # a comparator handed to an adaptor reads the same as a closure literal and as a named function (rules/common.callable_return)
+    from rules import common as _common
+
+    class _Ctx:        # (a plain stand-in: the engine's own context needs these fixtures to be ready first)
+        pass
+    fctx = _Ctx()
+    fctx.facts = facts
+    fctx.ibody = lambda d: mir.Body(facts, facts.bodies[d])
+
+    def comparator(name):
+        ds = [d for d in facts.bodies if d.endswith("inl::" + name)]
+        b = fctx.ibody(ds[0])
+        cs = [tm for bi, t, tm in b.real_calls() if mir._strip_generics(tm[1]).endswith("sort_unstable_by")]
+        r = _common.callable_return(fctx, cs[0][2][-1]) if len(cs) == 1 else None
+        return mir.render(r) if r is not None else None
+    res["callable_closure_eq_named_fn"] = comparator("sort_closure") is not None and comparator("sort_closure") == comparator("sort_named")
     return res
